@@ -369,6 +369,48 @@ CLAIMS = {
 ALL = ["C%02d" % i for i in range(1, 21)]
 
 
+# additions of the third session (appended to the claim text of the property)
+ADDENDA = {
+    "C01": " Also: an executable model of the loop WITH chunk contents (Volume.convert: slicing + moveaxis to the C-ordered "
+           "(C,Z,Y,X) chunk) and the theorem that reading the stored chunks back returns the input value of the same "
+           "position for every voxel and channel (every_voxel_reads_back), tied to every recorded write_chunk call on "
+           "identity volumes; the slope/intercept rewriting as an executable model over exact rationals "
+           "(value_mapping_of_model), tied to what the code leaves on the nibabel proxy.",
+    "C03": " Also: get_encoder as a decision model over acceptance tables regenerated from the source "
+           "(encoder_selection_follows_info: a codec exactly for the well-formed requests, the one the scale names), tied "
+           "exhaustively over the request space; the grid test is exercised with several scales on ONE handle.",
+    "C05": " Also: the disk-backed byte array equals the in-memory one after every history of appends, failing ones "
+           "included (disk_buffer_equals_memory_buffer); callers' buffers are reused after every store.",
+    "C08": " Also: the per-axis delays are computed INSIDE the model (integer decision of round(log2 q)) with the theorem "
+           "that the delay is exactly the level from which the axis is within sqrt(2) of the finest one "
+           "(delay_is_the_level_of_near_isotropy); every raw / compressed_segmentation scale of a generated info is served "
+           "by get_encoder (generated_scales_served_by_encoders).",
+    "C13": " Also: the whole loop model (Convert.run) is executed next to the real command, including a removed or "
+           "truncated source chunk (the conversion must fail, never return normally).",
+    "C15": " Also: the WHOLE chunk loop of slices_to_raw_chunks as an index-level model (stackChunks: slice groups, "
+           "negative-step flips, moveaxis, permute/invert_permutation of slicings and coordinates) with the theorems that "
+           "every written chunk holds at every position the pixel the code designates and that every voxel lies in exactly "
+           "one written chunk, for all accepted codes, sizes and chunk sizes; tied to every recorded write_chunk call.",
+    "C16": " Also: the half-voxel statement about the executable row model the driver evaluates (rowG) and soundness of "
+           "the driver's rational arithmetic; files that DECLARE micron/metre units must be placed consistently under one "
+           "reading of the unit.",
+    "C17": " Also: an executable model of affine_transform_mesh (polymorphic, run over the integers) with the theorem "
+           "that every triangle keeps its orientation from every reference point under every non-singular transform "
+           "(affine_keeps_outward_orientation), tied to the real function.",
+    "C18": " Also: the sharded writer's disk-backed buffers under failures (Buffers model): after ANY history of appends "
+           "failing at open or after any number of bytes the buffer holds exactly the successful payloads and reports that "
+           "length; a flush whose n-th deferred append fails loses no buffered chunk; kernel-checked counterexamples for the "
+           "code before the repairs F35/F36; sessions that CONTINUE after a reported failure and then close must read back "
+           "every chunk whose store returned normally (found F35, F36, F37, all repaired).",
+    "C19": " Also: the documented sequence's info, the method each program resolves, the codec get_encoder picks for "
+           "every scale and chains of real pyramid levels are compared with Pipeline.stepwiseInfo / stepwiseMethod / "
+           "computeScales over the model downscalers.",
+}
+LINKAGE_NOTE = (" Linkage audit on every run: every model definition a property theorem is stated over is reachable "
+                "from the compiled driver's main (so the correspondence run executes it next to the code) or is listed "
+                "in lean/linkage.json as specification-side; a gap is reported as a broken tie.")
+
+
 def main():
     checks = []
     na = []
@@ -382,8 +424,8 @@ def main():
                 "evidence_file": f"evidence/{p}.json",
                 "replay_cmd_template": f"./check {p} --replay {{path}}",
                 "engine": "ngverif-lean",
-                "level_claimed": {"category": "proof", "text": c["text"], "design_ref": c["ref"]},
-                "level_note": c["note"],
+                "level_claimed": {"category": "proof", "text": c["text"] + ADDENDA.get(p, ""), "design_ref": c["ref"]},
+                "level_note": c["note"] + LINKAGE_NOTE,
                 "technique": c["technique"],
             })
         else:
